@@ -16,7 +16,8 @@ from .model import AnalysisError
 
 
 class Scenario:
-    def __init__(self, name, vtypes, edges, fixed=(), fix_first_pose=False, err_len=2, alias=None, symbolic_ids=False):
+    def __init__(self, name, vtypes, edges, fixed=(), fix_first_pose=False, err_len=2, alias=None, symbolic_ids=False, identical_edges=False):
+        self.identical_edges = identical_edges   # all edges carry the same symbolic error / information / Jacobians (cheap for thousands of edges)
         self.name, self.vtypes, self.edges, self.fixed, self.ffp, self.err_len = name, vtypes, edges, set(fixed), fix_first_pose, err_len
         self.alias = alias      # (i, j): vertices i and j hold the *same* pose object
         self.symbolic_ids = symbolic_ids   # ids are opaque pairwise-distinct names: every order relation between them is explored
@@ -125,10 +126,14 @@ def _build(it, scn):
     verts = [it.construct("Vertex", [vid(k), poses[k]], dict(fixed=(k in scn.fixed))) for k in range(len(dims))]
     edges, spec = [], []
     m = scn.err_len
+    shared = {}
     for ei, vs in enumerate(scn.edges):
-        err = sym_vec("e%d" % ei, m)
-        W = sym_symmetric("W%d" % ei, m)
-        Js = [sym_mat("J%d_%d" % (ei, k), m, dims[v]) for k, v in enumerate(vs)]
+        tag = ei
+        if getattr(scn, "identical_edges", False):
+            tag = "s%s" % "_".join(map(str, vs))
+        if tag not in shared:
+            shared[tag] = (sym_vec("e%s" % tag, m), sym_symmetric("W%s" % tag, m), [sym_mat("J%s_%d" % (tag, k), m, dims[v]) for k, v in enumerate(vs)])
+        err, W, Js = shared[tag]
         from .algebra import custom_edge
         e = custom_edge(it, [vid(v) for v in vs], W, None, None)
         e.stubs["calc_error"] = (lambda err=err: err)
@@ -252,7 +257,7 @@ def _assemble_and_compare(it, g, verts, dims, spec, scn, label="", chi2_only=Fal
     return dict(scenario=scn.name, vertices=len(dims), edges=len(scn.edges), fixed=sorted(fixed), n=n)
 
 
-def assembly_obligation(scn, chi2_only=False):
+def assembly_obligation(scn, chi2_only=False, allow_size_thresholds=False):
     def fn(it):
         g, verts, dims, spec = _build(it, scn)
         return _assemble_and_compare(it, g, verts, dims, spec, scn, chi2_only=chi2_only)
@@ -262,7 +267,7 @@ def assembly_obligation(scn, chi2_only=False):
         if len(vs) == 2 and len(d.t) == 2 and all(v.startswith("id") for v in vs) and sorted(d.t.values()) == [-1, 1] and d.total_degree() == 1:
             return {-1, 1}
         return None
-    return lambda pkg: run_obligation(pkg, fn, hook=names_hook if scn.symbolic_ids else None)
+    return lambda pkg: run_obligation(pkg, fn, hook=names_hook if scn.symbolic_ids else None, allow_size_thresholds=allow_size_thresholds)
 
 
 def sequence_obligation(first, second):
